@@ -23,9 +23,13 @@ ASSUMPTION_TEXT = {
                "is executed by CPython and read by reflection, not verified",
     "[E-JSON]": "[E-JSON] json.dumps/loads round-trip JSON values type-exactly and fail before producing output",
     "[E-FS]": "[E-FS] POSIX file model at primitive granularity; os.replace atomic; process-crash only",
-    "[L-SUM]": "[L-SUM] (paper) buffer size == sum over files of the per-file contribution: each buffer function is proved "
-               "to change the size by exactly the contribution delta of its one file and to leave other entries untouched; "
-               "`size == 0 after a forced flush` then follows from the pointwise-proved `no file keeps a contribution`",
+    "[L-SUM]": "[L-SUM] two facts about finite sums of non-negative per-file contributions, stated as axioms with witness "
+               "functions over the uninterpreted Sum(buffer, heap) and instantiated by hand: (zero) Sum >= contrib(f) >= 0 and "
+               "Sum > 0 => the witness file contributes; (step) if no file other than f changes its contribution (checked at "
+               "the witness file) then Sum changes by f's contribution delta. With them Inv.size (size == Sum) is PROVED at the "
+               "exits of _flush x2, _save_to_buffer, _load_from_buffer, set_buffer_capacity, the context exits and of "
+               "_flush_buffer (incl. size == 0 after a forced flush); assumed only: Inv.size holds at the internal call sites "
+               "of _flush_buffer",
     "[E-UUID]": "[E-UUID] a temp-file name derived from a fresh uuid4 names no existing file and is none of the file names "
                 "the program already holds",
     "[E-MD5]": "[E-MD5] hashlib.md5 has no collisions on the blobs compared",
